@@ -738,6 +738,19 @@ where
         results
     }
 
+    /// removes the tracks whose status is `TrackStatus::Wasted` from the store
+    ///
+    pub fn clear_wasted(&self) {
+        for s in self.stores.as_ref() {
+            s.lock().unwrap().retain(|_, track| {
+                !matches!(
+                    track.get_attributes().baked(&track.observations),
+                    Ok(TrackStatus::Wasted)
+                )
+            });
+        }
+    }
+
     /// clears all the tracks from the store
     ///
     pub fn clear(&self) {
